@@ -24,6 +24,8 @@ pub enum ActKind {
     Relays(Vec<String>),
     /// set (Some(b): hash=[b;32], key=[b+1;32], nonce=[b+2;12]) or clear (None) the group image
     Image(Option<u8>),
+    /// change only some of the image fields: (hash, key, nonce), each Some(b) -> [b; n]
+    ImageParts(Option<u8>, Option<u8>, Option<u8>),
     /// change the description
     Describe(String),
     /// rotate the Nostr group id to [b;32]
@@ -51,6 +53,7 @@ impl ActKind {
             ActKind::RotateId(_) => "rotate".into(),
             ActKind::Relays(_) => "relays".into(),
             ActKind::Image(_) => "image".into(),
+            ActKind::ImageParts(..) => "imageparts".into(),
             ActKind::Describe(_) => "describe".into(),
             ActKind::Admins(_) => "admins".into(),
             ActKind::Add(_) => "add".into(),
@@ -423,6 +426,19 @@ fn expand(
             ActKind::Relays(us) => with_mdk!(c, m => m.update_group_data(&gid, NostrGroupDataUpdate::new().relays(us.iter().map(|u| relay(u)).collect()))).map_err(ge(&label))?.evolution_event,
             ActKind::Image(Some(b)) => with_mdk!(c, m => m.update_group_data(&gid, NostrGroupDataUpdate::new().image_hash(Some([*b; 32])).image_key(Some([b.wrapping_add(1); 32])).image_nonce(Some([b.wrapping_add(2); 12])))).map_err(ge(&label))?.evolution_event,
             ActKind::Image(None) => with_mdk!(c, m => m.update_group_data(&gid, NostrGroupDataUpdate::new().image_hash(None))).map_err(ge(&label))?.evolution_event,
+            ActKind::ImageParts(h, k, n) => {
+                let mut u = NostrGroupDataUpdate::new();
+                if let Some(b) = h {
+                    u = u.image_hash(Some([*b; 32]));
+                }
+                if let Some(b) = k {
+                    u = u.image_key(Some([*b; 32]));
+                }
+                if let Some(b) = n {
+                    u = u.image_nonce(Some([*b; 12]));
+                }
+                with_mdk!(c, m => m.update_group_data(&gid, u)).map_err(ge(&label))?.evolution_event
+            }
             ActKind::Describe(d) => with_mdk!(c, m => m.update_group_data(&gid, NostrGroupDataUpdate::new().description(d.clone()))).map_err(ge(&label))?.evolution_event,
             ActKind::RotateId(b) => with_mdk!(c, m => m.update_group_data(&gid, NostrGroupDataUpdate::new().nostr_group_id([*b; 32]))).map_err(ge(&label))?.evolution_event,
             ActKind::Admins(names) => {
